@@ -755,10 +755,6 @@ func (e *evaluator) evaluate(node parser.Node, current any, variables *variableS
 
 		return results, nil
 	case *parser.SelectArrayCurrentNode:
-		if current == nil {
-			return nil, nil
-		}
-
 		results := make([]any, len(node.Fields))
 		for i, field := range node.Fields {
 			result, err := e.evaluate(field, current, variables)
@@ -815,10 +811,6 @@ func (e *evaluator) evaluate(node parser.Node, current any, variables *variableS
 
 		return results, nil
 	case *parser.SelectObjectCurrentNode:
-		if current == nil {
-			return nil, nil
-		}
-
 		results := make(map[string]any, len(node.Fields))
 		for key, field := range node.Fields {
 			result, err := e.evaluate(field, current, variables)
